@@ -676,7 +676,7 @@ pub fn spec() -> PropSpec {
     PropSpec {
         id: "C03",
         level: "exploration",
-        rule: "inputs: (a) raw bytes and mutated valid streams / handshakes, (b) well-framed chunk streams from the reference peer carrying arbitrary (type id, body) messages, truncated valid bodies, protocol commands (names connect, createStream, publish, play, closeStream, deleteStream, _result, _error, onStatus, @setDataFrame, onMetaData, unknown, empty; types 20 / 17 / 17+0x00) with 0..6 arguments from the AMF0 generator and from pools of the values handlers inspect, data messages, control messages with edge values (chunk size 0 / 2^31 / 2^32-1, unknown user-control events, bad limit types), interleaved with application calls (accept / reject with plausible and arbitrary ids, sends, finish_playing, client requests / stops / publishes), (c) adversarial chunk headers (formats 0-3, 1/2/3-byte csid forms, 24-bit fields 0 / 1 / 0xFFFFFE / 0xFFFFFF, lengths smaller than what is buffered, extended field present / absent / contradicting the rule, small extended values); targets: handshake (both roles), chunk deserializer, message decoder, server and client sessions fresh / connected / publishing / playing; every stream under a generated partition. Sub-check 'isolated-memory-and-time' runs the cases in worker processes (heap cap, watchdog, peak heap <= 256 x bytes fed + 17 MiB); sub-check 'no-panic-in-process' runs the same generator in-process so a failure is shrunk. Non-trivial = the input produced at least one message / result, or an error after successful progress, or >= 2 successful calls; distinct = distinct case",
+        rule: "(arguments and handler-read properties include strings of 65471..65535 bytes made of 1- to 4-byte characters) inputs: (a) raw bytes and mutated valid streams / handshakes, (b) well-framed chunk streams from the reference peer carrying arbitrary (type id, body) messages, truncated valid bodies, protocol commands (names connect, createStream, publish, play, closeStream, deleteStream, _result, _error, onStatus, @setDataFrame, onMetaData, unknown, empty; types 20 / 17 / 17+0x00) with 0..6 arguments from the AMF0 generator and from pools of the values handlers inspect, data messages, control messages with edge values (chunk size 0 / 2^31 / 2^32-1, unknown user-control events, bad limit types), interleaved with application calls (accept / reject with plausible and arbitrary ids, sends, finish_playing, client requests / stops / publishes), (c) adversarial chunk headers (formats 0-3, 1/2/3-byte csid forms, 24-bit fields 0 / 1 / 0xFFFFFE / 0xFFFFFF, lengths smaller than what is buffered, extended field present / absent / contradicting the rule, small extended values); targets: handshake (both roles), chunk deserializer, message decoder, server and client sessions fresh / connected / publishing / playing; every stream under a generated partition. Sub-check 'isolated-memory-and-time' runs the cases in worker processes (heap cap, watchdog, peak heap <= 256 x bytes fed + 17 MiB); sub-check 'no-panic-in-process' runs the same generator in-process so a failure is shrunk. Non-trivial = the input produced at least one message / result, or an error after successful progress, or >= 2 successful calls; distinct = distinct case",
         assumptions: vec![
             "the harness is built with overflow-checks and debug-assertions on, so arithmetic overflow is an observable panic",
             "sessions keep being fed after handle_input returned Err (robustness only: the oracle here is 'returns, does not panic, bounded memory'), although callers are expected to close the connection",
